@@ -265,6 +265,61 @@ pub fn run(tier: Tier) -> i32 {
             }
         }
     }
+    // systematic part: every literal-expression shape in every typing context
+    let shapes: &[(&str, &str, bool)] = &[
+        // (name, text, signed only)
+        ("lit", "{1:T}", false),
+        ("!lit", "!{7:T}", false),
+        ("-lit", "-{1:T}", true),
+        ("!!lit", "!(!{7:T})", false),
+        ("--lit", "-(-{1:T})", true),
+        ("lit+lit", "({1:T} + {2:T})", false),
+        ("lit/lit", "({6:T} / {2:T})", false),
+        ("lit<<lit", "({1:T} << {1:u8})", false),
+        ("!lit&lit", "(!{7:T} & {3:T})", false),
+        ("lit as T", "({300:T} as T)", false),
+        ("{lit}", "({ {1:T} })", false),
+        ("match lit", "match {1:T} { {0:T} => {2:T}, _ => {3:T} }", false),
+    ];
+    // (name, source with <L>, params, ret)
+    let contexts: &[(&str, &str, &[&str], &str)] = &[
+        ("x+L", "pub fn main(x: T) -> T {\n  x + <L>\n}\n", &["T"], "T"),
+        ("L+x", "pub fn main(x: T) -> T {\n  <L> + x\n}\n", &["T"], "T"),
+        ("x&L", "pub fn main(x: T) -> T {\n  x & <L>\n}\n", &["T"], "T"),
+        ("x==L", "pub fn main(x: T) -> bool {\n  x == <L>\n}\n", &["T"], "bool"),
+        ("L<x", "pub fn main(x: T) -> bool {\n  <L> < x\n}\n", &["T"], "bool"),
+        ("let v:T=L", "pub fn main(x: T) -> T {\n  let v: T = <L>;\n  v\n}\n", &["T"], "T"),
+        ("return L", "pub fn main(x: T) -> T {\n  <L>\n}\n", &["T"], "T"),
+        ("f(L)", "fn f(y: T) -> T {\n  y\n}\npub fn main(x: T) -> T {\n  f(<L>)\n}\n", &["T"], "T"),
+        ("[L,x]", "pub fn main(x: T) -> [T; 2] {\n  [<L>, x]\n}\n", &["T"], "[T;2]"),
+        ("(L,x)", "pub fn main(x: T) -> (T, T) {\n  (<L>, x)\n}\n", &["T"], "(T,T)"),
+        ("S{f:L}", "struct S { f: T }\npub fn main(x: T) -> S {\n  S { f: <L> }\n}\n", &["T"], "T"),
+        ("E::A(L)", "enum E { A(T), B }\npub fn main(x: T) -> E {\n  E::A(<L>)\n}\n", &["T"], "E1(T)"),
+        ("if c{L}else{x}", "pub fn main(x: T, c: bool) -> T {\n  if c { <L> } else { x }\n}\n", &["T", "bool"], "T"),
+        ("match x{_=>L}", "pub fn main(x: T) -> T {\n  match x {\n    _ => <L>,\n  }\n}\n", &["T"], "T"),
+        ("v=L", "pub fn main(x: T) -> T {\n  let mut v = x;\n  v = <L>;\n  v\n}\n", &["T"], "T"),
+        ("v+=L", "pub fn main(x: T) -> T {\n  let mut v = x;\n  v += <L>;\n  v\n}\n", &["T"], "T"),
+        ("b[0]=L", "pub fn main(a: [T; 2], y: u8) -> [T; 2] {\n  let mut b = a;\n  b[0] = <L>;\n  b\n}\n", &["[T;2]", "u8"], "[T;2]"),
+        ("[L;2]", "pub fn main(x: T) -> [T; 2] {\n  [<L>; 2]\n}\n", &["T"], "[T;2]"),
+    ];
+    for (cname, csrc, cparams, cret) in contexts {
+        for (sname, stext, signed_only) in shapes {
+            for t in tys {
+                if *signed_only && !t.signed() {
+                    continue;
+                }
+                let tsrc = csrc.replace("<L>", stext);
+                let (_, holes) = instantiate(&tsrc, t, 0);
+                for mask in 0..(1u32 << holes) {
+                    let (src, _) = instantiate(&tsrc, t, mask);
+                    let fns = vec![("main", cparams.iter().map(|p| bits_of(p, t)).collect::<Vec<_>>(), bits_of(cret, t))];
+                    let must_accept = mask == 0 && !tsrc.contains("{300:");
+                    jobs.push(Job { src, site: format!("I/direct/ctx {} / {}/unsuffixed={:b}", cname, sname, mask), input: t.name().to_string(), fns, must_accept });
+                    *per_template.lock().unwrap().entry(format!("ctx {cname}")).or_insert(0) += 1;
+                }
+            }
+        }
+    }
     for (name, src, parties, ret) in ZERO_SIZED {
         jobs.push(Job { src: src.to_string(), site: format!("I/zero-sized/{name}"), input: String::new(), fns: vec![("main", parties.to_vec(), *ret)], must_accept: false });
     }
